@@ -4,8 +4,12 @@
 //! Both legs drive the real `StreamingPersistence`, `Compactor`, `RecoveryManager`, `CheckpointManager` and
 //! `WriteBuffer` over `PlanStore`, an instrumented implementation of the public `ObjectStore` trait that keeps the
 //! objects in memory, counts and logs every I/O call, injects faults by call index (clean failure; torn put that
-//! leaves a prefix and returns Err), reconstructs the crash image after any call (plus torn variants of a put in
-//! flight) and can gate the store operations of two tasks so that every interleaving is enumerated.
+//! leaves a prefix and returns Err; corrupt get that returns the object with one bit flipped ONCE while the stored
+//! object stays intact), reconstructs the crash image after any call (plus torn variants of a put in flight), can
+//! park a put until the controller decides how it ends (a push() accepted while a flush's PUT is in flight) and can
+//! gate the store operations of two tasks so that every interleaving is enumerated. The gate never waits forever: a
+//! task with more than one outstanding store operation, or a wait during which no task can be scheduled, breaks the
+//! gate open and the interleaving set is reported as inconclusive (never as a violation).
 use crate::common::*;
 use futures::FutureExt;
 use parking_lot::Mutex;
@@ -41,7 +45,12 @@ type BoxFut<'a, T> = Pin<Box<dyn Future<Output = IoResult<T>> + Send + 'a>>;
 enum Fault {
     Fail,      // the call has no effect and returns Err
     Torn(u32), // put only: the first n/1000 of the bytes become the object, the call returns Err
+    CorruptGet(u32), // get only: the call returns Ok with bit (n mod 8*len) flipped; the stored object stays intact
 }
+
+/// Segment framing of the system under test (header and footer sizes), used to aim bit flips at an area.
+const SEG_HEADER: usize = 40;
+const SEG_FOOTER: usize = 24;
 
 #[derive(Clone, Debug)]
 struct Ev {
@@ -53,15 +62,28 @@ struct Ev {
     data: Vec<u8>,          // put: the bytes the caller wanted to store
     written: Option<usize>, // put: how many of them reached the store
     applied: bool,          // delete / rename took effect
+    len: usize,             // get: length of the object returned
 }
 
 #[derive(Default)]
 struct Gate {
     prefix: Vec<u8>,
     trace: Vec<(u8, bool)>, // (task that ran, was the other task also waiting)
-    pending: [bool; 2],
+    waiting: [u32; 2],      // operations of each task that wait at the gate (more than one = not schedulable)
     done: [bool; 2],
     grant: Option<u8>,
+    broken: Option<String>, // why the gate gave up; from then on every operation passes ungated
+}
+
+/// How long one operation may wait at the gate (in polls) before the gate declares that nothing can be scheduled;
+/// the other task needs one poll to reach its next store call, so this is never reached by a schedulable pair.
+const GATE_SPIN_LIMIT: u64 = 100_000;
+
+/// A put parked until the controller releases it with an outcome.
+#[derive(Default)]
+struct Hold {
+    parked: bool,
+    release: Option<Option<Fault>>,
 }
 
 #[derive(Default)]
@@ -71,6 +93,7 @@ struct Inner {
     log: Vec<Ev>,
     plan: BTreeMap<u64, Fault>,
     gate: Option<Gate>,
+    hold: Option<Hold>,
 }
 
 #[derive(Clone)]
@@ -102,7 +125,40 @@ fn fault_class(e: &Ev) -> String {
         None => "none".into(),
         Some(Fault::Fail) => format!("fail@{}", ev_class(e)),
         Some(Fault::Torn(_)) => format!("torn@{}", ev_class(e)),
+        Some(Fault::CorruptGet(_)) => format!("corrupt-get@{}", ev_class(e)),
     }
+}
+
+fn flip_bit(mut d: Vec<u8>, n: u32) -> Vec<u8> {
+    if !d.is_empty() {
+        let bit = n as usize % (d.len() * 8);
+        d[bit / 8] ^= 1 << (bit % 8);
+    }
+    d
+}
+
+/// Which part of an object a corrupt get damages.
+fn flip_area(key: &str, len: usize, n: u32) -> &'static str {
+    if obj_class(key) != "segment" || len < SEG_HEADER + SEG_FOOTER {
+        return obj_class(key);
+    }
+    match (n as usize % (len * 8)) / 8 {
+        b if b < SEG_HEADER => "segment-header",
+        b if b >= len - SEG_FOOTER => "segment-footer",
+        _ => "segment-records",
+    }
+}
+
+/// A bit number that lands in the given area of a segment of `len` bytes (anywhere for other objects).
+fn bit_in(rng: &mut Rng, key: &str, len: usize, area: &str) -> u32 {
+    let seg = obj_class(key) == "segment" && len > SEG_HEADER + SEG_FOOTER;
+    let (lo, hi) = match area {
+        "segment-header" if seg => (0, SEG_HEADER),
+        "segment-records" if seg => (SEG_HEADER, len - SEG_FOOTER),
+        "segment-footer" if seg => (len - SEG_FOOTER, len),
+        _ => (0, len.max(1)),
+    };
+    (rng.gen_range(lo..hi) * 8 + rng.gen_range(0..8)) as u32
 }
 
 fn apply_ev(objs: &mut Objs, e: &Ev) {
@@ -157,8 +213,53 @@ impl PlanStore {
     fn set_gate(&self, prefix: Vec<u8>) {
         self.inner.lock().gate = Some(Gate { prefix, ..Gate::default() });
     }
-    fn take_gate(&self) -> Vec<(u8, bool)> {
-        self.inner.lock().gate.take().map(|g| g.trace).unwrap_or_default()
+    fn take_gate(&self) -> (Vec<(u8, bool)>, Option<String>) {
+        self.inner.lock().gate.take().map(|g| (g.trace, g.broken)).unwrap_or_default()
+    }
+    fn break_gate(&self, why: &str) {
+        if let Some(g) = self.inner.lock().gate.as_mut() {
+            g.broken.get_or_insert_with(|| why.to_string());
+        }
+    }
+    /// The next put parks (after the gate, before it is logged) until `release`.
+    fn set_hold(&self) {
+        self.inner.lock().hold = Some(Hold::default());
+    }
+    fn parked(&self) -> bool {
+        self.inner.lock().hold.as_ref().map_or(false, |h| h.parked)
+    }
+    /// Let the parked put run; `outcome` is the fault it meets (None = it succeeds).
+    fn release(&self, outcome: Option<Fault>) {
+        if let Some(h) = self.inner.lock().hold.as_mut() {
+            h.release = Some(outcome);
+        }
+    }
+    fn clear_hold(&self) {
+        self.inner.lock().hold = None;
+    }
+    async fn park(&self) {
+        match self.inner.lock().hold.as_mut() {
+            Some(h) if !h.parked && h.release.is_none() => h.parked = true,
+            _ => return,
+        }
+        loop {
+            {
+                let mut g = self.inner.lock();
+                match g.hold.as_ref().map(|h| h.release.clone()) {
+                    None => return, // the controller withdrew the hold
+                    Some(Some(outcome)) => {
+                        g.hold = None;
+                        if let Some(f) = outcome {
+                            let idx = g.log.len() as u64;
+                            g.plan.insert(idx, f);
+                        }
+                        return;
+                    }
+                    Some(None) => {}
+                }
+            }
+            tokio::task::yield_now().await;
+        }
     }
     fn mark_done(&self, t: usize) {
         if let Some(g) = self.inner.lock().gate.as_mut() {
@@ -166,31 +267,55 @@ impl PlanStore {
         }
     }
     /// Scheduling gate: a gated task (0 or 1) waits until both tasks are at a store call (or the other has
-    /// finished); the controller's prefix decides who goes, after the prefix task 0 goes first.
+    /// finished); the controller's prefix decides who goes, after the prefix task 0 goes first. A task is expected
+    /// to have at most one store operation outstanding; when it has more (join! / spawned sub-operations), or when
+    /// an operation waits GATE_SPIN_LIMIT polls without anybody being schedulable, the gate is broken open: every
+    /// operation passes from then on and the controller reports the set as not enumerable.
     async fn enter(&self) {
         let t = self.task as usize;
         if t > 1 {
             return;
         }
-        match self.inner.lock().gate.as_mut() {
-            None => return,
-            Some(g) => g.pending[t] = true,
+        {
+            let mut g = self.inner.lock();
+            let Some(gt) = g.gate.as_mut() else { return };
+            if gt.broken.is_some() {
+                return;
+            }
+            if gt.waiting[t] > 0 {
+                gt.broken = Some(format!("task '{}' has more than one outstanding store operation (it issues store operations concurrently)", TASKS[t]));
+                return;
+            }
+            gt.waiting[t] = 1;
         }
-        for spins in 0u64.. {
-            assert!(spins < 1_000_000, "scheduling gate: task {} waits forever", t);
+        let mut spins = 0u64;
+        loop {
             {
                 let mut g = self.inner.lock();
-                let gt = g.gate.as_mut().expect("gate stays for the whole run");
-                if gt.grant.is_none() && (gt.pending[1 - t] || gt.done[1 - t]) {
-                    let both = gt.pending[0] && gt.pending[1];
-                    let want = gt.prefix.get(gt.trace.len()).copied().unwrap_or(0) as usize;
-                    let pick = if gt.pending[want] { want } else { 1 - want };
+                let Some(gt) = g.gate.as_mut() else { return };
+                if gt.broken.is_some() {
+                    gt.waiting[t] = 0;
+                    return;
+                }
+                if gt.grant.is_none() && (gt.waiting[1 - t] > 0 || gt.done[1 - t]) {
+                    let both = gt.waiting[0] > 0 && gt.waiting[1] > 0;
+                    let want = (gt.prefix.get(gt.trace.len()).copied().unwrap_or(0) as usize).min(1);
+                    let pick = if gt.waiting[want] > 0 { want } else { 1 - want }; // this task waits, so `pick` does too
                     gt.grant = Some(pick as u8);
                     gt.trace.push((pick as u8, both));
                 }
                 if gt.grant == Some(t as u8) {
                     gt.grant = None;
-                    gt.pending[t] = false;
+                    gt.waiting[t] = 0;
+                    return;
+                }
+                spins += 1;
+                if spins > GATE_SPIN_LIMIT {
+                    gt.broken = Some(format!(
+                        "no task can be scheduled: an operation of task '{}' waited {} polls while task '{}' neither reached a store call nor finished (grant outstanding: {:?})",
+                        TASKS[t], GATE_SPIN_LIMIT, TASKS[1 - t], gt.grant
+                    ));
+                    gt.waiting[t] = 0;
                     return;
                 }
             }
@@ -199,8 +324,12 @@ impl PlanStore {
     }
     /// Log a call and return the fault planned for it.
     fn begin(&self, g: &mut Inner, op: &'static str, key: &str, to: &str) -> Option<Fault> {
-        let f = g.plan.get(&(g.log.len() as u64)).map(|f| if op == "put" { f.clone() } else { Fault::Fail });
-        g.log.push(Ev { task: self.task, op, key: key.into(), to: to.into(), fault: f.clone(), data: vec![], written: None, applied: false });
+        // a fault kind that does not apply to the operation it lands on is a clean failure
+        let f = g.plan.get(&(g.log.len() as u64)).map(|f| match (op, f) {
+            ("put", Fault::Torn(_)) | ("get", Fault::CorruptGet(_)) => f.clone(),
+            _ => Fault::Fail,
+        });
+        g.log.push(Ev { task: self.task, op, key: key.into(), to: to.into(), fault: f.clone(), data: vec![], written: None, applied: false, len: 0 });
         f
     }
 }
@@ -223,12 +352,13 @@ impl ObjectStore for PlanStore {
     fn put<'a>(&'a self, key: &'a str, data: &'a [u8]) -> BoxFut<'a, ()> {
         Box::pin(async move {
             self.enter().await;
+            self.park().await;
             let mut g = self.inner.lock();
             let f = self.begin(&mut g, "put", key, "");
             let written = match &f {
                 None => Some(data.len()),
-                Some(Fault::Fail) => None,
                 Some(Fault::Torn(pm)) => Some(torn_len(data.len(), *pm)),
+                Some(_) => None,
             };
             if let Some(n) = written {
                 g.objs.insert(key.to_string(), data[..n].to_vec());
@@ -247,10 +377,13 @@ impl ObjectStore for PlanStore {
         Box::pin(async move {
             self.enter().await;
             let mut g = self.inner.lock();
-            if self.begin(&mut g, "get", key, "").is_some() {
-                return Err(injected());
-            }
-            g.objs.get(key).cloned().ok_or_else(|| not_found(key))
+            let r = match self.begin(&mut g, "get", key, "") {
+                None => g.objs.get(key).cloned(),
+                Some(Fault::CorruptGet(n)) => g.objs.get(key).cloned().map(|d| flip_bit(d, n)),
+                Some(_) => return Err(injected()),
+            };
+            g.log.last_mut().expect("just pushed").len = r.as_ref().map_or(0, |d| d.len());
+            r.ok_or_else(|| not_found(key))
         })
     }
     fn exists<'a>(&'a self, key: &'a str) -> BoxFut<'a, bool> {
@@ -363,6 +496,17 @@ async fn validate_store(rep: &mut Report, seed: u64) {
             bad += 1;
         }
         rep.count("store_equiv_sequences");
+        // a corrupt get differs from the stored object in exactly one bit, once; the object itself stays intact
+        let stored = a.objects();
+        if let Some((k, d)) = stored.iter().find(|(_, d)| !d.is_empty()) {
+            a.arm(BTreeMap::from([(0u64, Fault::CorruptGet(rng.gen()))]));
+            let (bad_read, clean_read) = (a.get(k).await.unwrap_or_default(), a.get(k).await.unwrap_or_default());
+            let flipped: u32 = bad_read.iter().zip(d).map(|(x, y)| (x ^ y).count_ones()).sum();
+            if bad_read.len() != d.len() || flipped != 1 || &clean_read != d || a.objects() != stored {
+                bad += 1;
+            }
+            rep.count("store_corrupt_get_checks");
+        }
     }
     if bad > 0 {
         rep.inconclusive(format!("PlanStore diverges from InMemoryObjectStore / its own event log in {} places (harness bug)", bad));
@@ -719,9 +863,23 @@ async fn crash_images(x: &Exec, from: usize, cache: &mut HashMap<(u64, usize, u6
             };
             rep.distinct(&(last_fault.as_str(), pos.as_str(), snap > 0, torn.as_ref().map(|t| t.1.is_empty())));
             if let Some((kind, detail)) = res {
+                // a key name damaged by a corrupt get does not belong into the signature
+                let kind = match kind.find("Key not found") {
+                    Some(p) if last_fault.starts_with("corrupt-get@") => kind[..p + "Key not found".len()].to_string(),
+                    _ => kind,
+                };
+                // One root cause, one signature: manifest.json carries no checksum, so a read of it that comes back
+                // with a flipped bit and still parses is accepted and written back by the next save; what breaks
+                // afterwards (a segment key that never existed, a lost confirmed update, a re-used segment id)
+                // and where the crash point lies are consequences, not different findings.
+                let sig = if last_fault.starts_with("corrupt-get@") && last_fault.ends_with(".get(manifest)") {
+                    "C12|manifest|corrupt-read-accepted-and-written-back|fault:corrupt-get@get(manifest)".to_string()
+                } else {
+                    format!("C12|recover|{}|{}|fault:{}", kind, pos, last_fault)
+                };
                 return Some(Crash {
                     kindpos: format!("{}|{}", kind, pos),
-                    sig: format!("C12|recover|{}|{}|fault:{}", kind, pos, last_fault),
+                    sig,
                     detail: format!("crash position {} (call index {}), {} flushes confirmed: {}", pos, j, snap, detail),
                     w: json!({"crash_after_call": j, "torn": torn.map(|t| t.1.len())}),
                     j,
@@ -772,6 +930,21 @@ fn exec_witness(steps: &[Step], cfg: &XCfg, plan: &BTreeMap<u64, Fault>, extra: 
     json!({"mode": "exec", "steps": steps, "cfg": cfg, "faults": plan.iter().collect::<Vec<_>>(), "crash": extra})
 }
 
+/// Bit numbers for the corrupt gets of one read: quick = one per read (mostly in the record area of a segment, where
+/// only the CRC pass can notice it), thorough = every area of a segment / several places of any other object.
+fn corrupt_bits(rng: &mut Rng, key: &str, len: usize, thorough: bool) -> Vec<u32> {
+    let seg = obj_class(key) == "segment";
+    match (seg, thorough) {
+        (true, false) => {
+            let area = if rng.gen_range(0..4) < 3 { "segment-records" } else { "any" };
+            vec![bit_in(rng, key, len, area)]
+        }
+        (true, true) => ["segment-header", "segment-records", "segment-records", "segment-footer", "any"].iter().map(|a| bit_in(rng, key, len, a)).collect(),
+        (false, false) => vec![bit_in(rng, key, len, "any")],
+        (false, true) => (0..3).map(|_| bit_in(rng, key, len, "any")).collect(),
+    }
+}
+
 /// Run one execution with a fault plan, check monitor findings and all crash images from the first fault on.
 async fn exec_case(rep: &mut Report, steps: &[Step], cfg: &XCfg, plan: &BTreeMap<u64, Fault>, cx: &mut Ctx) -> Exec {
     let x = run_exec(steps, cfg, plan).await;
@@ -785,6 +958,12 @@ async fn exec_case(rep: &mut Report, steps: &[Step], cfg: &XCfg, plan: &BTreeMap
         match e.fault {
             Some(Fault::Fail) => rep.count("faults_hit:clean_failure"),
             Some(Fault::Torn(_)) => rep.count("faults_hit:torn_put"),
+            Some(Fault::CorruptGet(n)) if e.len > 0 => {
+                rep.count("fault:corrupt-get");
+                rep.count(&format!("fault:corrupt-get:{}", flip_area(&e.key, e.len, n)));
+                rep.count(&format!("fault:corrupt-get@{}", ev_class(e)));
+            }
+            Some(Fault::CorruptGet(_)) => rep.count("fault:corrupt-get-of-missing-object"),
             None => {}
         }
     }
@@ -867,11 +1046,169 @@ async fn write_buffer_case(rep: &mut Report, n: usize, fault: Option<Fault>) {
     }
 }
 
+/// One flush of the concurrent WriteBuffer cases: `pre` updates are pushed, flush() starts and parks at its segment
+/// PUT, `during` more updates are pushed while the PUT is in flight, then the PUT ends with `outcome` (None = Ok).
+#[derive(Clone, Debug, PartialEq, Serialize, Deserialize)]
+struct WbRound {
+    pre: usize,
+    during: usize,
+    outcome: Option<Fault>,
+}
+
+/// WriteBuffer with push() racing flush(): conservation after every round (every accepted update is either in the
+/// segment of a flush that returned Ok or still pending) and, after a closing fault-free flush, every accepted
+/// update is in some valid segment.
+async fn write_buffer_concurrent_case(rep: &mut Report, rounds: &[WbRound]) {
+    let store = PlanStore::new();
+    let wb = WriteBuffer::new(Arc::new(store.tag(1)), "wb".to_string(), WriteBufferConfig::test());
+    let w = json!({"mode": "wb-concurrent", "rounds": rounds});
+    let mut accepted: Vec<ReplicationDelta> = vec![];
+    let mut pending = 0usize; // model: accepted and not yet part of a flush that returned Ok
+    let mut reported = false;
+    store.arm(BTreeMap::new());
+    rep.evaluations += 1;
+    rep.count("write_buffer_concurrent_cases");
+    let push = |accepted: &mut Vec<ReplicationDelta>| {
+        let i = accepted.len() as u64;
+        let d = mk_delta(&U { key: format!("w{}", i), rid: 1, t: 4 + i, k: UK::Val(format!("v{}", i)) }, (0, 1));
+        let ok = wb.push(d.clone()).is_ok();
+        if ok {
+            accepted.push(d);
+        }
+        ok
+    };
+    for (ri, r) in rounds.iter().enumerate() {
+        for _ in 0..r.pre {
+            if push(&mut accepted) {
+                pending += 1;
+            }
+        }
+        let taken = pending;
+        let mut during = 0usize;
+        store.set_hold();
+        let res = {
+            let mut fl = Box::pin(wb.flush());
+            let mut early = None;
+            for _ in 0..1000 {
+                match futures::poll!(fl.as_mut()) {
+                    std::task::Poll::Ready(x) => {
+                        early = Some(x);
+                        break;
+                    }
+                    std::task::Poll::Pending if store.parked() => break,
+                    std::task::Poll::Pending => {}
+                }
+            }
+            match early {
+                Some(x) => x, // nothing to flush: no PUT
+                None => {
+                    if !store.parked() {
+                        rep.inconclusive("WriteBuffer::flush neither finished nor reached its segment PUT within 1000 polls");
+                    }
+                    for _ in 0..r.during {
+                        if push(&mut accepted) {
+                            pending += 1;
+                            during += 1;
+                            rep.count("writebuffer:push-during-flush");
+                        }
+                    }
+                    store.release(r.outcome.clone());
+                    fl.await
+                }
+            }
+        };
+        store.clear_hold();
+        let how = if res.is_ok() { "put-succeeds" } else { "put-fails" };
+        if during > 0 {
+            rep.count(&format!("writebuffer:push-during-flush:{}", how));
+            rep.distinct(&("wb-concurrent", taken.min(3), during, how, r.outcome.as_ref().map(|f| matches!(f, Fault::Torn(_))), ri.min(2)));
+        }
+        let expected = if res.is_ok() { pending - taken } else { pending };
+        let have = wb.pending_count();
+        if have < expected && !reported {
+            reported = true;
+            let class = match (during > 0, res.is_ok()) {
+                (true, false) => "push-accepted-while-segment-PUT-in-flight,PUT-fails",
+                (true, true) => "push-accepted-while-segment-PUT-in-flight,PUT-succeeds",
+                (false, false) => "call-returned-Err,process-keeps-running",
+                (false, true) => "flush-returned-Ok",
+            };
+            rep.violation(
+                format!("C12|WriteBuffer::flush|accepted-updates-discarded|{}", class),
+                format!(
+                    "round {}: {} accepted updates were taken by flush(), {} more were accepted by push() while its PUT was in flight, flush returned {}; {} accepted updates are not yet in a successful flush, pending_count() = {}",
+                    ri, taken, during, if res.is_ok() { "Ok" } else { "Err" }, expected, have
+                ),
+                w.clone(),
+            );
+        } else if have > expected {
+            rep.count("write_buffer_pending_more_than_unconfirmed"); // duplicates are harmless for merge
+        }
+        pending = have; // after a discrepancy the model follows the buffer: later rounds are judged on their own
+    }
+    // closing flush, fault-free; then every accepted update must sit in some valid segment
+    let closing = wb.flush().await;
+    let mut st = State::new();
+    for data in store.objects().values() {
+        if let Ok(r) = redis_sim::streaming::SegmentReader::open(data) {
+            if r.validate().is_ok() {
+                r.read_all().unwrap_or_default().iter().for_each(|d| merge_into(&mut st, d));
+            }
+        }
+    }
+    let missing = accepted.iter().filter(|d| !absorbs(st.get(&d.key), &d.value)).count();
+    if missing > 0 {
+        rep.count("write_buffer_concurrent_updates_never_written");
+        if !reported && closing.is_ok() {
+            let class = if rounds.iter().any(|r| r.during > 0) { "push-accepted-while-segment-PUT-in-flight" } else { "no-concurrent-push" };
+            rep.violation(
+                format!("C12|WriteBuffer::flush|accepted-update-in-no-segment-after-successful-flush|{}", class),
+                format!("{} of {} accepted updates are in no valid segment after a closing flush that returned Ok (pending_count() = {})", missing, accepted.len(), wb.pending_count()),
+                w,
+            );
+        }
+    }
+}
+
+fn wb_rounds_directed() -> Vec<Vec<WbRound>> {
+    let r = |pre, during, outcome| WbRound { pre, during, outcome };
+    let mut v = vec![];
+    for pre in [1usize, 2, 7] {
+        for during in [1usize, 2, 3] {
+            for outcome in [Some(Fault::Fail), None, Some(Fault::Torn(500))] {
+                v.push(vec![r(pre, during, outcome)]);
+            }
+        }
+    }
+    v.push(vec![r(1, 1, Some(Fault::Fail)), r(0, 1, Some(Fault::Fail))]);
+    v.push(vec![r(2, 2, Some(Fault::Fail)), r(1, 0, None)]);
+    v.push(vec![r(1, 1, None), r(1, 2, Some(Fault::Fail))]);
+    v.push(vec![r(3, 1, Some(Fault::Torn(0))), r(0, 0, None)]);
+    v.push(vec![r(2, 0, Some(Fault::Fail)), r(0, 3, Some(Fault::Torn(999))), r(0, 1, None)]);
+    v
+}
+
+fn gen_wb_rounds(rng: &mut Rng) -> Vec<WbRound> {
+    (0..rng.gen_range(1..=4))
+        .map(|i| WbRound {
+            pre: rng.gen_range(if i == 0 { 1 } else { 0 }..=5),
+            during: rng.gen_range(0..=3),
+            outcome: match rng.gen_range(0..5) {
+                0..=1 => Some(Fault::Fail),
+                2 => Some(Fault::Torn(rng.gen_range(0..1000))),
+                _ => None,
+            },
+        })
+        .collect()
+}
+
 async fn crash_body(rep: &mut Report, args: &Args) {
     if let Some(p) = &args.replay {
         let w = read_witness(p);
         if w["mode"] == "wb" {
             write_buffer_case(rep, w["n"].as_u64().unwrap_or(1) as usize, serde_json::from_value(w["fault"].clone()).unwrap_or(None)).await;
+        } else if w["mode"] == "wb-concurrent" {
+            write_buffer_concurrent_case(rep, &serde_json::from_value::<Vec<WbRound>>(w["rounds"].clone()).expect("rounds")).await;
         } else {
             let steps: Vec<Step> = serde_json::from_value(w["steps"].clone()).expect("steps");
             let cfg: XCfg = serde_json::from_value(w["cfg"].clone()).expect("cfg");
@@ -885,6 +1222,8 @@ async fn crash_body(rep: &mut Report, args: &Args) {
     validate_store(rep, args.seed).await;
     let bases = args.get_u64("bases", if args.thorough() { 48_000 } else { 1200 });
     let doubles = args.get_u64("doubles", if args.thorough() { 60 } else { 30 });
+    // --corrupt_manifest 0 leaves the reads of the manifest out of the corrupt gets (the report is then inconclusive)
+    let corrupt_manifest = args.get_u64("corrupt_manifest", 1) != 0;
     let mut cx = Ctx::default();
     for b in 0..bases {
         if b % args.shards as u64 != args.shard as u64 {
@@ -901,11 +1240,15 @@ async fn crash_body(rep: &mut Report, args: &Args) {
         if b < 3 {
             rep.sample(json!({"steps": steps, "cfg": cfg, "store_calls": ff.log.iter().map(ev_class).collect::<Vec<_>>(), "flushes_confirmed": ff.rets.len()}));
         }
-        // every single-fault placement
+        // every single-fault placement (the corrupt gets draw from their own stream: the other placements stay put)
+        let mut crng = rng_from(args.seed, 1_250_000 + b);
         for i in 0..n {
             let mut kinds = vec![Fault::Fail];
             if ff.log[i].op == "put" {
                 kinds.extend([Fault::Torn(500), Fault::Torn(rng.gen_range(0..1000))]);
+            }
+            if ff.log[i].op == "get" && ff.log[i].len > 0 && (corrupt_manifest || obj_class(&ff.log[i].key) == "segment") {
+                kinds.extend(corrupt_bits(&mut crng, &ff.log[i].key, ff.log[i].len, args.thorough()).into_iter().map(Fault::CorruptGet));
             }
             for f in kinds {
                 rep.count("fault_placements_single");
@@ -920,12 +1263,36 @@ async fn crash_body(rep: &mut Report, args: &Args) {
             rep.count("fault_placements_double");
             exec_case(rep, &steps, &cfg, &BTreeMap::from([(i, f()), (j, f())]), &mut cx).await;
         }
+        // sampled double faults whose first one is a corrupt get of a segment (a failure is attributed to the last
+        // fault before it, and a corrupt get of the manifest followed by anything else would be misattributed)
+        let gets: Vec<usize> = (0..n).filter(|i| ff.log[*i].op == "get" && ff.log[*i].len > 0 && obj_class(&ff.log[*i].key) == "segment").collect();
+        for _ in 0..(doubles / 6).min(gets.len() as u64) {
+            let i = *gets.choose(&mut crng).expect("non-empty");
+            let j = crng.gen_range(i as u64 + 1..=n as u64 + 2);
+            let area = if crng.gen_bool(0.7) { "segment-records" } else { "any" };
+            let first = Fault::CorruptGet(bit_in(&mut crng, &ff.log[i].key, ff.log[i].len, area));
+            let second = match crng.gen_range(0..3) {
+                0 => Fault::Fail,
+                1 => Fault::Torn(crng.gen_range(0..1000)),
+                _ if corrupt_manifest => Fault::CorruptGet(crng.gen()),
+                _ => Fault::Fail,
+            };
+            rep.count("fault_placements_double_with_corrupt_get");
+            exec_case(rep, &steps, &cfg, &BTreeMap::from([(i as u64, first), (j, second)]), &mut cx).await;
+        }
     }
     flush_deferred(rep, &mut cx);
     for n in [1usize, 2, 7] {
         for f in [None, Some(Fault::Fail), Some(Fault::Torn(0)), Some(Fault::Torn(500)), Some(Fault::Torn(999))] {
             write_buffer_case(rep, n, f).await;
         }
+    }
+    // push() racing flush(): a parked segment PUT, updates accepted meanwhile, then the PUT fails / succeeds
+    for rounds in wb_rounds_directed() {
+        write_buffer_concurrent_case(rep, &rounds).await;
+    }
+    for i in 0..args.get_u64("wb_random", if args.thorough() { 4000 } else { 100 }) {
+        write_buffer_concurrent_case(rep, &gen_wb_rounds(&mut rng_from(args.seed, 1_260_000 + i))).await;
     }
     rep.exhaustive = true; // per explored execution: every crash index, every single-fault placement
     let counters = rep.counters.clone();
@@ -938,6 +1305,14 @@ async fn crash_body(rep: &mut Report, args: &Args) {
         ("compact_err", "no compaction ever failed"),
         ("faults_hit:clean_failure", "no clean failure was injected"),
         ("faults_hit:torn_put", "no torn put was injected"),
+        ("fault:corrupt-get", "no corrupt get was injected"),
+        ("fault:corrupt-get:segment-records", "no corrupt get damaged the record area of a segment"),
+        ("fault:corrupt-get@compact.get(segment)", "no corrupt get hit a compaction's read of an input segment"),
+        ("fault:corrupt-get@compact.get(manifest)", "no corrupt get hit a compaction's read of the manifest"),
+        ("fault:corrupt-get@flush.get(manifest)", "no corrupt get hit a flush's read of the manifest"),
+        ("writebuffer:push-during-flush", "no push() was accepted while a WriteBuffer flush had its segment PUT in flight"),
+        ("writebuffer:push-during-flush:put-fails", "no segment PUT failed after a push() was accepted while it was in flight"),
+        ("writebuffer:push-during-flush:put-succeeds", "no segment PUT succeeded after a push() was accepted while it was in flight"),
         ("crash_images_torn_put_in_flight", "no torn in-flight image was checked"),
         ("confirmed_keys_checked", "no confirmed update was ever compared with a recovered image"),
         ("write_buffer_flush_err", "the stand-alone WriteBuffer never saw a failing flush"),
@@ -1047,6 +1422,45 @@ struct Outcome {
     compacted: bool,
     dropped_legit: u64,
     before_segments: Vec<(u64, u64)>, // (id, size)
+    image: Objs,                      // the store before the compaction
+    before: State,                    // what recovery returned before the compaction
+    reads: Vec<(u64, String, usize)>, // compaction's reads of input segments: (call index, key, length)
+}
+
+async fn compact_layout(l: &Layout, store: &PlanStore) -> Result<Result<CompactionResult, CompactionError>, String> {
+    let cfg = ccfg(l.target, 2, l.max_per, l.ttl_ms);
+    match l.clock {
+        Clock::Manual { cutoff } => compact_with(store, cfg, ManualTime(cutoff + l.ttl_ms)).await,
+        _ => compact_with(store, cfg, ProductionTimeSource::new()).await,
+    }
+}
+
+/// First key on which the state recovered after a compaction differs from the one before it (a tombstone older than
+/// the TTL may be gone), as (kind, key, detail), and the number of tombstones dropped legitimately.
+fn compare_states(l: &Layout, before: &State, after: &State) -> (Option<(String, String, String)>, u64) {
+    let mut dropped_legit = 0;
+    let keys: BTreeSet<&String> = before.keys().chain(after.keys()).collect();
+    for k in keys {
+        let (b, a) = (before.get(k), after.get(k));
+        if b.map(pi) == a.map(pi) {
+            continue;
+        }
+        let tomb = b.map_or(false, |b| b.is_tombstone());
+        let kind = match (b, a) {
+            (Some(b), None) if tomb && l.droppable(b.timestamp.time) => {
+                dropped_legit += 1;
+                continue;
+            }
+            (Some(_), None) if tomb => "tombstone-dropped-before-ttl",
+            (Some(_), Some(a)) if tomb && !a.is_tombstone() => "deleted-key-resurrected",
+            (Some(_), Some(_)) if tomb => "older-tombstone-resurfaced",
+            (Some(_), None) => "key-lost",
+            (None, Some(_)) => "key-appeared",
+            _ => "value-changed",
+        };
+        return (Some((kind.to_string(), k.clone(), format!("key {}: recovered before compaction {} / after {}", k, show(b), show(a)))), dropped_legit);
+    }
+    (None, dropped_legit)
 }
 
 /// recover → compact → recover on a layout and compare.
@@ -1054,12 +1468,11 @@ async fn eval_layout(l: &Layout) -> Result<Outcome, String> {
     let store = build_layout(l).await;
     let before = recover_fold(&store.objects()).await.map_err(|e| format!("recovery of the generated layout failed: {}", e))?;
     let m: redis_sim::streaming::Manifest = serde_json::from_slice(&store.objects()[&format!("{}/manifest.json", PFX)]).map_err(|e| e.to_string())?;
-    let mut out = Outcome { kind: None, removed: BTreeSet::new(), compacted: false, dropped_legit: 0, before_segments: m.segments.iter().map(|s| (s.id, s.size_bytes)).collect() };
-    let cfg = ccfg(l.target, 2, l.max_per, l.ttl_ms);
-    let res = match l.clock {
-        Clock::Manual { cutoff } => compact_with(&store, cfg, ManualTime(cutoff + l.ttl_ms)).await,
-        _ => compact_with(&store, cfg, ProductionTimeSource::new()).await,
-    };
+    let mut out = Outcome { kind: None, removed: BTreeSet::new(), compacted: false, dropped_legit: 0, before_segments: m.segments.iter().map(|s| (s.id, s.size_bytes)).collect(), image: store.objects(), before, reads: vec![] };
+    store.arm(BTreeMap::new());
+    let res = compact_layout(l, &store).await;
+    let (_, log) = store.take_log();
+    out.reads = log.iter().enumerate().filter(|(_, e)| e.op == "get" && e.len > 0 && obj_class(&e.key) == "segment").map(|(i, e)| (i as u64, e.key.clone(), e.len)).collect();
     match res {
         Err(p) => {
             out.kind = Some(("panic".into(), String::new(), p));
@@ -1079,29 +1492,82 @@ async fn eval_layout(l: &Layout) -> Result<Outcome, String> {
             return Ok(out);
         }
     };
-    let keys: BTreeSet<&String> = before.keys().chain(after.keys()).collect();
-    for k in keys {
-        let (b, a) = (before.get(k), after.get(k));
-        if b.map(pi) == a.map(pi) {
-            continue;
-        }
-        let tomb = b.map_or(false, |b| b.is_tombstone());
-        let kind = match (b, a) {
-            (Some(b), None) if tomb && l.droppable(b.timestamp.time) => {
-                out.dropped_legit += 1;
-                continue;
-            }
-            (Some(_), None) if tomb => "tombstone-dropped-before-ttl",
-            (Some(_), Some(a)) if tomb && !a.is_tombstone() => "deleted-key-resurrected",
-            (Some(_), Some(_)) if tomb => "older-tombstone-resurfaced",
-            (Some(_), None) => "key-lost",
-            (None, Some(_)) => "key-appeared",
-            _ => "value-changed",
-        };
-        out.kind = Some((kind.to_string(), k.clone(), format!("key {}: recovered before compaction {} / after {}", k, show(b), show(a))));
-        break;
-    }
+    let (kind, dropped_legit) = compare_states(l, &out.before, &after);
+    out.kind = kind;
+    out.dropped_legit = dropped_legit;
     Ok(out)
+}
+
+/// What the segment reader makes of the bytes a corrupt get hands to compaction.
+fn damage_class(data: &[u8]) -> &'static str {
+    match redis_sim::streaming::SegmentReader::open(data) {
+        Err(_) => "open-fails",
+        Ok(r) if r.validate().is_err() => "crc-mismatch",
+        Ok(_) => "undetectable",
+    }
+}
+
+/// The compaction of a layout once more with one corrupt get on the read at call index `call`: it may refuse or
+/// skip the segment, it must not lose or alter anything that recovery returned before.
+async fn corrupt_get_case(rep: &mut Report, l: &Layout, o: &Outcome, call: u64, bit: u32) {
+    let Some((_, key, len)) = o.reads.iter().find(|r| r.0 == call) else {
+        return rep.inconclusive("corrupt-get case: the call index is not a read of an input segment");
+    };
+    let class = damage_class(&flip_bit(o.image[key].clone(), bit));
+    let area = flip_area(key, *len, bit);
+    rep.evaluations += 1;
+    rep.count("fault:corrupt-get");
+    rep.count(&format!("fault:corrupt-get:{}", area));
+    rep.count(&format!("corrupt_get:damage:{}", class));
+    let store = PlanStore::from_objects(o.image.clone());
+    store.arm(BTreeMap::from([(call, Fault::CorruptGet(bit))]));
+    let res = compact_layout(l, &store).await;
+    let delivered = store.take_log().1.get(call as usize).map_or(false, |e| matches!(e.fault, Some(Fault::CorruptGet(_))) && e.key == *key);
+    if !delivered {
+        return rep.inconclusive("corrupt-get case: the corrupt get did not reach the planned read (compaction is not deterministic?)");
+    }
+    let w = json!({"mode": "layout-corrupt-get", "layout": l, "call": call, "bit": bit});
+    // the way recovery differs afterwards (key lost, value changed, tombstone gone ...) depends on the layout, not
+    // on the defect: the signature names the damage and what compaction did with the damaged input
+    let removed = res.as_ref().ok().and_then(|r| r.as_ref().ok()).map_or(false, |r| r.segments_removed.iter().any(|s| s.key == *key));
+    let fate = if removed { "damaged-input-removed" } else { "damaged-input-kept" };
+    let sig = |kind: &str| format!("C13|compact|{}|corrupt-get@compact.get(segment),{},{}", kind, class, fate);
+    let what = format!("one corrupt get of {} (bit {} flipped, {}; the reader's verdict on those bytes: {})", key, bit as usize % (len * 8), area, class);
+    let outcome = match &res {
+        Err(p) => return rep.violation(sig("panic"), format!("{}: {}", what, p), w),
+        Ok(Ok(r)) => {
+            rep.count("corrupt_get:compaction_ok");
+            if r.segments_removed.iter().any(|s| s.key == *key) {
+                rep.count(&format!("corrupt_get:damaged_input_removed:{}", class));
+            }
+            format!("compaction returned Ok and removed segments {:?}", r.segments_removed.iter().map(|s| s.id).collect::<Vec<_>>())
+        }
+        Ok(Err(e)) => {
+            rep.count("corrupt_get:compaction_refused");
+            format!("compaction returned Err({})", e)
+        }
+    };
+    rep.distinct(&("corrupt-get", area, class, res.as_ref().map_or(false, |r| r.is_ok()), o.reads.len().min(4), l.ckpt > 0));
+    match recover_fold(&store.objects()).await {
+        Err(e) => rep.violation(sig(&format!("recover-failed:{}", e)), format!("{}; {}; recovery afterwards fails: {}", what, outcome, e), w),
+        Ok(after) => {
+            if let (Some((kind, _, detail)), _) = compare_states(l, &o.before, &after) {
+                rep.count(&format!("corrupt_get:divergence:{}", kind));
+                rep.violation(sig("recovery-differs-after-corrupt-read"), format!("{}; {}; {}: {}", what, outcome, kind, detail), w);
+            }
+        }
+    }
+}
+
+/// One corrupt get on each input segment read in turn (quick: one bit per read, thorough: every area).
+async fn corrupt_get_cases(rep: &mut Report, l: &Layout, o: &Outcome, rng: &mut Rng, thorough: bool) {
+    rep.count("layouts_with_corrupt_get_cases");
+    for (call, key, len) in &o.reads {
+        let areas: &[&str] = if thorough { &["segment-header", "segment-records", "segment-records", "segment-footer", "any"] } else { &[["segment-records", "segment-records", "segment-header", "segment-footer"][rng.gen_range(0..4)]] };
+        for area in areas {
+            corrupt_get_case(rep, l, o, *call, bit_in(rng, key, *len, area)).await;
+        }
+    }
 }
 
 /// Smaller layouts to try while shrinking.
@@ -1175,7 +1641,26 @@ fn layout_class(l: &Layout, o: &Outcome, key: &str, kind: &str) -> String {
     }
 }
 
-async fn layout_case(rep: &mut Report, l: &Layout, want_sample: bool) {
+/// Where the age of a tombstone (manual clock) lies relative to a TTL with a sub-second part and to what is left
+/// of that TTL when the sub-second part is dropped.
+fn sub_second_age_class(l: &Layout, stamp: u64) -> Option<&'static str> {
+    let Clock::Manual { cutoff } = l.clock else { return None };
+    if l.ttl_ms % 1000 == 0 {
+        return None;
+    }
+    let age = (cutoff + l.ttl_ms) as i128 - stamp as i128;
+    let (ttl, trunc) = (l.ttl_ms as i128, (l.ttl_ms / 1000 * 1000) as i128);
+    Some(match () {
+        _ if age > ttl => "older-than-ttl",
+        _ if age == ttl => "at-ttl",
+        _ if age > trunc => "between-truncated-and-configured-ttl",
+        _ if age == trunc => "at-truncated-ttl",
+        _ => "younger-than-truncated-ttl",
+    })
+}
+
+/// `corrupt`: also run the corrupt-get cases of the layout (when its fault-free compaction preserves recovery).
+async fn layout_case(rep: &mut Report, l: &Layout, want_sample: bool, corrupt: Option<(Rng, bool)>) {
     rep.evaluations += 1;
     rep.count("layouts");
     let o = match eval_layout(l).await {
@@ -1196,6 +1681,12 @@ async fn layout_case(rep: &mut Report, l: &Layout, want_sample: bool) {
         }
         if l.ckpt > 0 {
             rep.count("layouts_with_checkpoint");
+        }
+        if l.ttl_ms % 1000 != 0 {
+            rep.count("ttl:sub-second");
+            if l.ttl_ms > 1000 {
+                rep.count("ttl:sub-second:above-one-second");
+            }
         }
         // tombstone-age classes and other content classes of this layout
         let mut ages = BTreeSet::new();
@@ -1218,6 +1709,10 @@ async fn layout_case(rep: &mut Report, l: &Layout, want_sample: bool) {
                 };
                 rep.count(&format!("tombstone_age:{}", age));
                 ages.insert(age);
+                if let Some(c) = sub_second_age_class(l, tm.0 + u.t * tm.1) {
+                    rep.count(&format!("tombstone_age:sub-second-ttl:{}", c));
+                    ages.insert(format!("sub-second-ttl:{}:{}", c, l.ttl_ms > 1000));
+                }
             }
         }
         rep.distinct(&("layout", skipped_large.min(2), skipped_over.min(2), l.ckpt > 0, ages, shapes, o.removed.len()));
@@ -1225,7 +1720,12 @@ async fn layout_case(rep: &mut Report, l: &Layout, want_sample: bool) {
     if want_sample {
         rep.sample(json!({"layout": l, "segments_before": o.before_segments, "removed": o.removed, "divergence": o.kind.as_ref().map(|k| &k.0)}));
     }
-    let Some((kind, _, _)) = o.kind.clone() else { return };
+    let Some((kind, _, _)) = o.kind.clone() else {
+        if let (true, Some((mut rng, thorough))) = (o.compacted, corrupt) {
+            corrupt_get_cases(rep, l, &o, &mut rng, thorough).await;
+        }
+        return;
+    };
     // shrink while the same kind of divergence persists
     let (mut cur, mut cur_o) = (l.clone(), o);
     let mut progress = true;
@@ -1331,7 +1831,42 @@ fn directed_layouts() -> Vec<Layout> {
         v.push(base(vec![seg(vec![u("k", 1, 7, val("old"))]), seg(vec![u("k", 2, 15, UK::Tomb)]), other()], c.clone()));
         v.push(base(vec![big(vec![u("k", 1, 7, val("old"))]), seg(vec![u("k", 2, 15, UK::Tomb)]), other()], c));
     }
+    // TTLs with a sub-second part, stamps on the millisecond scale of the manual clock: the age of the tombstone is
+    // just below / at / just above the configured TTL and just below / at / just above its whole-second truncation
+    let tt = SUB_SECOND_SHIFT + 15;
+    let far = || seg(vec![u("o", 1, tt - 8, val("x"))]);
+    for ttl_ms in [1500u64, 250, 999] {
+        let frac = ttl_ms % 1000;
+        for cutoff in [tt - 1, tt, tt + 1, tt - frac - 1, tt - frac, tt - frac + 1] {
+            let sub = |segs: Vec<Seg>| Layout { ttl_ms, ..base(segs, Clock::Manual { cutoff }) };
+            v.push(sub(vec![seg(vec![u("k", 1, tt - 8, val("old"))]), seg(vec![u("k", 2, tt, UK::Tomb)]), far()]));
+            v.push(sub(vec![seg(vec![u("k", 2, tt, UK::Tomb)]), far()]));
+        }
+    }
     v
+}
+
+/// Logical times of the sub-second-TTL layouts are shifted so that there is room below them for every cutoff.
+const SUB_SECOND_SHIFT: u64 = 20_000;
+
+/// A random layout under the manual clock with a TTL that is not a whole number of seconds and a cutoff that puts
+/// one of its tombstones next to the configured TTL or next to the TTL without its sub-second part.
+fn gen_layout_sub_second(rng: &mut Rng) -> Layout {
+    let mut l = gen_layout(rng);
+    l.segs.iter_mut().flat_map(|s| &mut s.ups).for_each(|u| u.t += SUB_SECOND_SHIFT);
+    l.ttl_ms = *[1500u64, 250, 999, 1001, 2750, 60_500, 1].choose(rng).expect("non-empty");
+    let frac = l.ttl_ms % 1000;
+    let tombs: Vec<u64> = l.segs.iter().flat_map(|s| &s.ups).filter(|u| u.k == UK::Tomb).map(|u| u.t).collect();
+    let tt = tombs.choose(rng).copied().unwrap_or(SUB_SECOND_SHIFT + 23);
+    l.clock = Clock::Manual { cutoff: *[tt - 1, tt, tt + 1, tt - frac - 1, tt - frac, tt - frac + 1, tt - frac / 2, 0, tt + 5000].choose(rng).expect("non-empty") };
+    if rng.gen_bool(0.7) {
+        // only a compaction that covers all the data may drop a tombstone at all
+        l.ckpt = 0;
+        l.max_per = 10;
+        l.target = 1 << 20;
+        l.segs.iter_mut().for_each(|s| s.large = false);
+    }
+    l
 }
 
 // ------------------------------------------------------------------ interleavings of compact() and flush()
@@ -1341,6 +1876,7 @@ struct Sched {
     class: String,
     ops: String,
     trace: Vec<(u8, bool)>,
+    unschedulable: Option<String>, // the gate could not order the two tasks: no verdict for this schedule
 }
 
 /// Run compact() and flush() concurrently on a copy of `image` under the schedule prefix, then recover.
@@ -1357,9 +1893,16 @@ async fn run_schedule(image: &Objs, before: &State, batch: &[U], prefix: Vec<u8>
         marker.mark_done(1);
         r
     };
-    let (rc, rf) = futures::join!(compact_with(&store, ccfg(2048, 2, 10, 1000), ManualTime(0)), fl);
-    let trace = store.take_gate();
+    // (virtual time: the timeout can only fire when both tasks sit idle on something that is not the store)
+    let joined = tokio::time::timeout(Duration::from_secs(3600), futures::future::join(compact_with(&store, ccfg(2048, 2, 10, 1000), ManualTime(0)), fl)).await;
+    if joined.is_err() {
+        store.break_gate("the two tasks did not finish within an hour of virtual time (a task waits for something that is not a store operation)");
+    }
+    let (trace, broken) = store.take_gate();
     let (_, log) = store.take_log();
+    let Some((rc, rf)) = joined.ok().filter(|_| broken.is_none()) else {
+        return Sched { kind: None, class: String::new(), ops: String::new(), trace, unschedulable: Some(broken.unwrap_or_else(|| "gate broken".into())) };
+    };
     // do the flush's window [first call, last call] and compaction's [manifest load, manifest swap] overlap?
     let span = |task: u8| (log.iter().position(|e| e.task == task), log.iter().rposition(|e| e.task == task));
     let swap = log.iter().position(|e| e.task == 0 && e.op == "rename");
@@ -1369,7 +1912,7 @@ async fn run_schedule(image: &Objs, before: &State, batch: &[U], prefix: Vec<u8>
     }
     .to_string();
     let ops = log.iter().map(|e| format!("{}{}", ev_class(e), if e.op == "rename" && !e.applied { "=NotFound" } else { "" })).collect::<Vec<_>>().join(" ");
-    let mut s = Sched { kind: None, class, ops, trace };
+    let mut s = Sched { kind: None, class, ops, trace, unschedulable: None };
     let flushed = match (rc, rf) {
         (Err(p), _) => {
             s.kind = Some(("panic".into(), p));
@@ -1418,6 +1961,15 @@ async fn interleave_set(rep: &mut Report, l: &Layout, batch: &[U], idx: u64) {
     let mut n = 0u64;
     loop {
         let s = run_schedule(&image, &before, batch, prefix.clone()).await;
+        if let Some(why) = &s.unschedulable {
+            // not a verdict on the system under test: the harness cannot enumerate this pair of tasks
+            rep.count("interleaving_sets_not_enumerable");
+            let msg = format!("interleavings of compact() and flush() could not be enumerated: {}", why);
+            if !rep.inconclusive.contains(&msg) {
+                rep.inconclusive(msg);
+            }
+            return;
+        }
         n += 1;
         rep.evaluations += 1;
         rep.count("interleavings");
@@ -1491,26 +2043,43 @@ async fn compact_body(rep: &mut Report, args: &Args) {
             let before = recover_fold(&image).await.expect("layout recovers");
             let s = run_schedule(&image, &before, &batch, prefix).await;
             rep.evaluations += 1;
-            if let Some((kind, detail)) = s.kind {
+            if let Some(why) = s.unschedulable {
+                rep.inconclusive(format!("interleavings of compact() and flush() could not be enumerated: {}", why));
+            } else if let Some((kind, detail)) = s.kind {
                 rep.violation(format!("C13|compact+flush|{}|{}", kind, s.class), detail, w.clone());
             }
+        } else if w["mode"] == "layout-corrupt-get" {
+            match eval_layout(&l).await {
+                Ok(o) => corrupt_get_case(rep, &l, &o, w["call"].as_u64().unwrap_or(0), w["bit"].as_u64().unwrap_or(0) as u32).await,
+                Err(e) => rep.inconclusive(format!("layout could not be evaluated: {}", e)),
+            }
         } else {
-            layout_case(rep, &l, true).await;
+            layout_case(rep, &l, true, None).await;
         }
         return;
     }
     validate_store(rep, args.seed).await;
     let mine = |i: u64| i % args.shards as u64 == args.shard as u64;
+    // corrupt-get cases: every directed layout, every `corrupt_every`-th random one (all of them in the thorough tier)
+    let every = args.get_u64("corrupt_every", if args.thorough() { 1 } else { 4 }).max(1);
+    let corrupt = |i: u64, on: bool| on.then(|| (rng_from(args.seed, 1_330_000 + i), args.thorough()));
     for (i, l) in directed_layouts().iter().enumerate() {
         if mine(i as u64) {
             rep.count("layouts_directed");
-            layout_case(rep, l, false).await;
+            layout_case(rep, l, false, corrupt(1_000_000 + i as u64, true)).await;
         }
     }
     let layouts = args.get_u64("layouts", if args.thorough() { 160_000 } else { 8000 });
     for i in 0..layouts {
         if mine(i) {
-            layout_case(rep, &gen_layout(&mut rng_from(args.seed, 1_300_000 + i)), i < 3).await;
+            layout_case(rep, &gen_layout(&mut rng_from(args.seed, 1_300_000 + i)), i < 3, corrupt(i, (i / args.shards as u64) % every == 0)).await;
+        }
+    }
+    let sub_second = args.get_u64("sub_second_layouts", if args.thorough() { 40_000 } else { 2000 });
+    for i in 0..sub_second {
+        if mine(i) {
+            rep.count("layouts_sub_second_ttl");
+            layout_case(rep, &gen_layout_sub_second(&mut rng_from(args.seed, 1_320_000 + i)), i < 1, corrupt(2_000_000 + i, (i / args.shards as u64) % (every * 2) == 0)).await;
         }
     }
     let sets = args.get_u64("sets", if args.thorough() { 4800 } else { 200 });
@@ -1541,8 +2110,22 @@ async fn compact_body(rep: &mut Report, args: &Args) {
         ("tombstone_age:production-clock+wall-scale-stamps:true", "no old tombstone under the production clock"),
         ("tombstone_age:production-clock+wall-scale-stamps:false", "no young tombstone under the production clock"),
         ("interleavings", "no interleaving was executed"),
+        ("ttl:sub-second", "no compacted layout had a TTL with a sub-second part"),
+        ("ttl:sub-second:above-one-second", "no compacted layout had a TTL above one second with a sub-second part"),
+        ("tombstone_age:sub-second-ttl:older-than-ttl", "sub-second TTL: no tombstone older than the TTL"),
+        ("tombstone_age:sub-second-ttl:at-ttl", "sub-second TTL: no tombstone exactly as old as the TTL"),
+        ("tombstone_age:sub-second-ttl:between-truncated-and-configured-ttl", "sub-second TTL: no tombstone with an age between the whole seconds of the TTL and the TTL"),
+        ("tombstone_age:sub-second-ttl:at-truncated-ttl", "sub-second TTL: no tombstone exactly as old as the whole seconds of the TTL"),
+        ("tombstone_age:sub-second-ttl:younger-than-truncated-ttl", "sub-second TTL: no tombstone younger than the whole seconds of the TTL"),
+        ("fault:corrupt-get", "no corrupt get was injected into a compaction"),
+        ("fault:corrupt-get:segment-header", "no corrupt get damaged the header of an input segment"),
+        ("fault:corrupt-get:segment-records", "no corrupt get damaged the record area of an input segment"),
+        ("fault:corrupt-get:segment-footer", "no corrupt get damaged the footer of an input segment"),
+        ("corrupt_get:damage:open-fails", "no corrupt get produced a segment that cannot be opened"),
+        ("corrupt_get:damage:crc-mismatch", "no corrupt get produced a segment that opens but fails its checksum"),
+        ("corrupt_get:compaction_ok", "no compaction went ahead after a corrupt get (>= 3 input segments needed)"),
     ] {
-        if c(k) == 0 && (args.shards == 1 || !k.starts_with("tombstone_age")) {
+        if c(k) == 0 && (args.shards == 1 || !k.starts_with("tombstone_age:") || k.starts_with("tombstone_age:sub-second")) {
             rep.inconclusive(why);
         }
     }
